@@ -70,6 +70,20 @@ def gen_coq():
     return _prepared['gen']
 
 
+SRC_TIED = ('C01', 'C02', 'C11', 'C17', 'C18')     # property files that contain source-translation equivalences
+
+
+def gen_src():
+    """Regenerate coq/gen/Src.v from /repo/src with the rs2coq translator (fail closed)."""
+    if 'src' in _prepared:
+        return _prepared['src']
+    rc, out, err = sh('%s/tools/rs2coq/run.sh' % VERIF, timeout=1200)
+    if rc != 0:
+        raise PrepareError('rs2coq', 'the Rust-to-Gallina translator could not translate /repo/src (exit %d): %s' % (rc, (out + err)[-1500:]))
+    _prepared['src'] = (out + err).strip().split('\n')[-1]
+    return _prepared['src']
+
+
 def coq_make(targets, timeout=3000):
     """make the given .vo targets (full .vo build, each coqc under the Makefile's own rules)."""
     if not os.path.exists(COQ + '/Makefile') or os.path.getmtime(COQ + '/Makefile') < os.path.getmtime(COQ + '/_CoqProject'):
